@@ -317,6 +317,17 @@ def check(repo, rep):
                         v = x[3]
                         ok = v[0] == 'sub' and v[2][0] == 'slice' and v[2][2] is None and v[2][1] is not None and hopbytes(v[2][1]) \
                             and v[1][0] == 'call' and v[1][1][0] == 'attr' and v[1][1][2] == 'read'
+                        is_read = v[0] == 'call' and v[1][0] == 'attr' and v[1][2] == 'read'
+                        if not ok and is_read and t == x:
+                            # the loop variable is the WINDOW itself (first value: the first block, yielded as it is); the part kept for
+                            # the next window is cut inside the loop -- checked there: window[hop_bytes:] of that same variable
+                            kept = [y for l2 in gl for e2 in l2.effects for y in (walk(e2[1]) if isinstance(e2[1], tuple) else []) if y[0] == 'sub' and y[2][0] == 'slice' and y[1][0] == 'loopvar' and y[1][1] == x[1]]
+                            okk = bool(kept) and all(k_[2][2] is None and k_[2][1] is not None and hopbytes(k_[2][1]) for k_ in kept)
+                            rep.ob('initial overlap cache = first block [hop_bytes:]', okk, W(g), '%s:initial-cache' % g.name, 'the window kept for the next round is %s' % [show(k_)[:80] for k_ in kept][:2])
+                            continue
+                        if not ok and not (v[0] == 'sub' and v[2][0] == 'slice'):
+                            rep.unknown('%s: the value the overlap loop starts from (%s) is neither the first block cut at the hop nor the first block itself' % (g.name, show(v)[:80]))
+                            continue
                         rep.ob('initial overlap cache = first block [hop_bytes:]', ok, W(g), '%s:initial-cache' % g.name, 'initial cache is %s' % show(v)[:200])
         # after exhaustion: yields None forever or ends
         ends_ok = all((l.outcome in ('return', 'loop-back', 'fall')) for l in gl)
